@@ -38,16 +38,27 @@ impl FeatureVariationsProvider {
         for rule in &ir_variations.rules {
             let mut region = Region::default();
             for conditions in &rule.conditions {
-                let mut space = NBox::default();
+                // all conditions of a set must hold: when an axis occurs more than
+                // once the ranges are intersected (NBox::insert would replace)
+                let mut ranges = BTreeMap::new();
                 for condition in conditions {
                     let axis = static_metadata
                         .axis(&condition.axis)
                         .expect("checked already");
                     let min = condition.min.map(|min| min.to_normalized(&axis.converter));
                     let max = condition.max.map(|max| max.to_normalized(&axis.converter));
-                    space.insert(condition.axis, min, max);
+                    let (cur_min, cur_max) = ranges.entry(condition.axis).or_insert((min, max));
+                    *cur_min = (*cur_min).max(min);
+                    *cur_max = match (*cur_max, max) {
+                        (Some(a), Some(b)) => Some(a.min(b)),
+                        (a, b) => a.or(b),
+                    };
                 }
-                region.push(std::mem::take(&mut space));
+                let mut space = NBox::default();
+                for (axis, (min, max)) in ranges {
+                    space.insert(axis, min, max);
+                }
+                region.push(space);
             }
             let substitutions = rule
                 .substitutions
